@@ -85,6 +85,8 @@ TraceNull == /\ UNCHANGED reach /\ IsEvent("null")
           \cup IF_(C14 /\ r.res = "none" /\ r.st # cur, {<<"C14", "board-changed-by-refused-null">>})
           \cup IF_(C14 /\ r.res = "some" /\ SetOfSeq(r.st.chk) # {}, {<<"C14", "null-checkers">>})
           \cup IF_(C11 /\ r.res = "some" /\ r.st.h = cur.h, {<<"C11", "null-move-does-not-change-hash">>})
+          \cup IF_(C14 /\ r.res = "some" /\ r.fh # r.st.h, {<<"C14", "null-hash-differs-from-freshly-constructed-board", r.st.h, r.fh>>})
+          \cup IF_(C14 /\ r.res = "some" /\ ~r.feq, {<<"C14", "null-result-differs-from-freshly-constructed-board">>})
           \cup IF_(C14 /\ r.res = "some" /\ OneKingEach(logged) /\ SetOfSeq(r.st.pin) # Pinned(logged), {<<"C14", "null-pinned", Pinned(logged), r.st.pin>>}))
 
 \* clock setters (beyond the listed properties): range check, nothing else moves
